@@ -26,7 +26,10 @@ def main():
     # SANY over every module, in a scratch copy
     ctx = D.Ctx("SETUP", "quick", 0)
     try:
-        d = D.stage_spec(ctx, params={"ObsFile": "/dev/null"})
+        names = {"ObsFile"}
+        for f in glob.glob(os.path.join(D.SPEC, "*.tla")):
+            names.update(re.findall(r"\b[A-Z][A-Za-z0-9]*File\b", open(f).read()))
+        d = D.stage_spec(ctx, params={n: "/dev/null" for n in sorted(names)})
         bad = 0
         claimed = claimed_props()
         for f in sorted(glob.glob(os.path.join(d, "*.tla"))):
